@@ -539,3 +539,60 @@ pub fn gen_c04t(tier: Tier, seed: u64) -> Case {
     c.seed = seed;
     c
 }
+
+/// C10 / C14 (THR): journal rotation (threshold scaled to 512-1024 B) driven by fjall's own
+/// workers while one thread fills a busy keyspace and rotates its memtable, and other threads
+/// drop single writes into otherwise idle keyspaces - the writes a sealed journal's eviction
+/// watermarks must still cover. Afterwards the main thread flushes the busy keyspace again (so
+/// that sealed journals get reclaimed), everything is closed and reopened: nothing acknowledged
+/// may be missing.
+pub fn gen_c10t(tier: Tier, seed: u64, prop: &str) -> Case {
+    let mut r = Rng::stream(seed, "workload");
+    let n_names = r.range(2, 3) as usize;
+    let n_keys = r.range(2, 3) as usize;
+    let mut g = G::new(&mut r, n_names, n_keys, DbKind::Plain, false);
+    tiny_opts(&mut g);
+    for o in &mut g.cfg.opts {
+        o.max_memtable = 1 << 20;
+    }
+    g.cfg.rotation_threshold = *g.r.pick(&[512u64, 1024]);
+    g.cfg.journal_lz4 = false;
+    g.cfg.workers = g.r.range(1, 2) as usize;
+    let program0 = setup(&mut g, n_names, 0);
+    let mut threads = vec![];
+    let rounds = g.r.range(2, if tier == Tier::Quick { 3 } else { 5 });
+    // busy thread: fills keyspace 0 past the rotation threshold, then rotates its memtable
+    let mut busy = vec![];
+    for _ in 0..rounds {
+        for _ in 0..g.r.range(1, 2) {
+            let sz = *g.r.pick(&[600u32, 1000]);
+            let v = g.val_sized(sz, false);
+            busy.push(Op::Insert { ks: 0, key: g.key(), val: v });
+        }
+        busy.push(Op::Rotate { ks: 0 });
+    }
+    threads.push(busy);
+    // idle keyspaces get a single small write now and then
+    for ks in 1..n_names as u8 {
+        let mut ops = vec![];
+        for _ in 0..g.r.range(1, 3) {
+            let v = g.val_sized(8, true);
+            ops.push(Op::Insert { ks, key: g.key(), val: v });
+            if g.r.chance(1, 3) {
+                ops.push(Op::Read(ReadOp::Get { ks, key: g.key() }));
+            }
+        }
+        threads.push(ops);
+    }
+    let mut program = program0;
+    // tail: flush the busy keyspace once more so that journal maintenance runs
+    for _ in 0..2 {
+        let v = g.val_sized(600, false);
+        program.push(Op::Insert { ks: 0, key: g.key(), val: v });
+        program.push(Op::Rotate { ks: 0 });
+    }
+    let class = format!("thr-idle-keyspaces-w{}", g.cfg.workers);
+    let mut c = thr_case(prop, seed, &g, program, threads, class);
+    c.seed = seed;
+    c
+}
